@@ -276,7 +276,7 @@ def build():
                             "multiprocessing": ClassRef("MultiprocessingBackend"), "loky": ClassRef("LokyBackend")}),
         "DEFAULT_BACKEND": OneOf("loky", "threading"),
     }
-    p.assume_note("BACKENDS holds the four built-in backends; DEFAULT_BACKEND is 'loky' or 'threading' (register_parallel_backend is out of scope)")
+    p.assume_note("BACKENDS holds the four built-in backends and DEFAULT_BACKEND is 'loky' or 'threading' - or, variant without-multiprocessing, only threading / sequential with default 'threading' (register_parallel_backend is out of scope)")
 
     def resolved(interp, key, param):
         cfg = interp.ctx.ghost["TL0"].attrs.get("config")
@@ -311,8 +311,21 @@ def build():
                                                  "(resolved('prefer', prefer) == 'processes' and resolved('require', require) == 'sharedmem')"}},
     )
     p.add(gab)
+    # The same function where multiprocessing is not available (JOBLIB_MULTIPROCESSING=0, or platforms without working semaphores): only the
+    # thread-based and the sequential backends are registered and the default is 'threading'.  prefer='processes' is a hint that cannot be
+    # followed there - it must not make the resolution fail.
+    GLOB_NOMP = dict(GLOB_B, BACKENDS=PyDict({"threading": ClassRef("ThreadingBackend"), "sequential": ClassRef("SequentialBackend")}), DEFAULT_BACKEND="threading")
+    gab_nomp = Contract(
+        PAR, "_get_active_backend", variant="without-multiprocessing", props=["C17"], globals=GLOB_NOMP,
+        setup=gab.setup, inline=set(gab.inline),
+        params=dict(prefer=PREFER("prefer"), require=REQUIRE("require"), verbose=INT),
+        ensures={k: v for k, v in gab.ensures.items() if k != "prefer_processes_hint"},
+        exsures=gab.exsures,
+    )
+    p.add(gab_nomp)
     gab.ensures["config_passthrough"] = ("all(cfg_same(result[1], k) for k in ('verbose', 'temp_folder', 'max_nbytes', 'mmap_mode', 'prefer', 'require', 'backend'))"
                                           " and (cfg_same(result[1], 'n_jobs') or result[1]['n_jobs'] == 1)")
+    gab_nomp.ensures["config_passthrough"] = gab.ensures["config_passthrough"]
     gab.ensures["n_jobs_forced_only_with_thread_fallback"] = (
         "implies(not cfg_same(result[1], 'n_jobs'), isinstance(result[0], ThreadingBackend) and not same_obj(result[0], ctx_backend())"
         " and (resolved('require', require) == 'sharedmem' or resolved('prefer', prefer) == 'threads'))")
